@@ -33,8 +33,19 @@ def taper_case(ctx, label, H_f, n, n_e, spin, mapping, utd, case):
     from tangelo.toolboxes.operators.taper_qubits import QubitTapering
     from tangelo.toolboxes.operators import count_qubits
     q = fermion_to_qubit_mapping(H_f, mapping, n_spinorbitals=n, n_electrons=n_e, up_then_down=utd, spin=spin)
+    q_before = dict(q.terms)
     try:
         tap = QubitTapering(q, n, n_e, spin, mapping, utd)
+        if dict(q.terms) != q_before:
+            ctx.violation(f"QubitTapering modified the operator it was given ({label}, {mapping})", case)
+            return False
+        if n <= 6:
+            # a second tapering object built from the same operator in the same process (nothing of the first may stay behind)
+            tap2 = QubitTapering(q, n, n_e, spin, mapping, utd)
+            if dict(tap2.z2_tapered_op.qubitoperator.terms) != dict(tap.z2_tapered_op.qubitoperator.terms):
+                ctx.violation(f"tapering the same operator twice gives two different operators ({label}, {mapping}, up_then_down={utd})", case)
+                return False
+            ctx.count("taper:second-call")
     except Exception as e:
         ctx.violation(f"QubitTapering raises {type(e).__name__}: {str(e)[:120]} on {label} ({mapping}, up_then_down={utd})", case)
         return False
